@@ -1,4 +1,4 @@
-add("C05", "checks/c05_params.c", ["default-asan", "default-plain", "noinfo-plain", "c89-plain", "ndebug-plain"], ["default-asan", "default-plain", "noinfo-asan", "noinfo-plain", "c89-plain", "uchar-plain", "c99-plain", "optall-plain", "ndebug-plain", "mcu-plain"],
+add("C05", "checks/c05_params.c", ["default-asan", "default-plain", "noinfo-plain", "c89-plain", "ndebug-plain", "heap-plain"], ["default-asan", "default-plain", "noinfo-asan", "noinfo-plain", "c89-plain", "uchar-plain", "c99-plain", "optall-plain", "ndebug-plain", "mcu-plain", "heap-plain"],
     "cases = one message unit pairing a random handler signature (0..4 typed readers out of 13 kinds, mandatory/optional, handler verdict "
     "OK/ERR) with a parameter list of 0..5 items generated from the 488.2 program-data grammar (13 item classes incl. suffixes, unknown "
     "suffixes, known/unknown mnemonics, strings, blocks, expressions) with white space in every legal place; plus malformed data fragments "
